@@ -507,6 +507,62 @@ func vScripts() []vScript {
 				}
 			}
 		}},
+		{"c02-reobservation-after-a-rotation-then-quorum-of-the-new-set", func(dr *vDriver, w *vWorld) {
+			// observed under set 1 (below quorum), the set rotates to other members under index 2, the watcher re-observes the same message
+			// (same digest: the index is not part of the body), then two members of set 2 sign: the published VAA is the node's LAST
+			// observation - it names set 2 and carries set 2's signatures at set 2's positions
+			mA := []int{-1, 30, 31, 32}
+			mB := []int{-1, 40, 41, 42}
+			dr.opClock(1000)
+			dr.opSetGS(w.set(mA, 1))
+			k := w.msg(0)
+			d := digestOfMsg(k, 0)
+			dr.opMsg(k)
+			dr.opLoop(0)
+			dr.opObs(w.obsBy(mA[1], d, k.TxHash[:]), "member")
+			dr.opSetGS(w.set(mB, 2))
+			dr.opMsg(k)
+			dr.opLoop(0)
+			dr.opObs(w.obsBy(mB[2], d, k.TxHash[:]), "member")
+			dr.opObs(w.obsBy(mB[3], d, k.TxHash[:]), "member")
+			dr.opObs(w.obsBy(mB[1], d, k.TxHash[:]), "member")
+		}},
+		{"fault-c02-store-unreadable-when-the-message-is-observed", func(dr *vDriver, w *vWorld) {
+			// the store cannot be read at the moment the watcher hands a message over (the lookup there is only a shortcut for messages whose
+			// VAA is already stored): the node has observed the message, so it signs and gossips its observation all the same, and once the
+			// store is back the delivered quorum (two peers parked earlier + its own) is published
+			mem := members(4, 1)
+			dr.opClock(1000)
+			dr.opSetGS(w.set(mem, 0))
+			k := w.msg(0)
+			d := digestOfMsg(k, 0)
+			dr.opObs(w.obsBy(mem[0], d, k.TxHash[:]), "member")
+			dr.opObs(w.obsBy(mem[2], d, k.TxHash[:]), "member")
+			dr.h.Faults = true
+			dr.dbDown = true
+			dr.d.Close()
+			ok := dr.opMsg(k)
+			signed := false
+			if n := len(dr.h.Steps); ok && n > 0 {
+				for _, o := range dr.h.Steps[n-1].Outs {
+					if len(o) > 8 && o[:8] == "sendobs " {
+						signed = true
+					}
+				}
+			}
+			if ok && !signed {
+				dr.h.Mon = append(dr.h.Mon, "C02: the node observed a chain message while its store could not be read and neither signed nor gossiped its observation (nothing is stored under that message id; the failed lookup is not 'already published')")
+			}
+			if d2, err := db.Open(dr.dir); err == nil {
+				dr.d = d2
+				dr.p.db = d2
+				dr.dbDown = false
+			} else {
+				dr.h.Mon = append(dr.h.Mon, "harness: the store did not reopen: "+err.Error())
+				return
+			}
+			dr.opLoop(0)
+		}},
 		{"fault-c14-store-unreadable-during-one-cleanup-tick", func(dr *vDriver, w *vWorld) {
 			// the store cannot be read while one cleanup tick runs (closed, reopened afterwards): a failed lookup is not "the quorum VAA is
 			// stored"; the pending own observation must still be there afterwards and be retried at five minutes
